@@ -36,12 +36,19 @@ where
     }
 
     pub(crate) fn run(mut self) -> Result<(), S::Error> {
+        // When the search stops before the reader is exhausted, the bytes
+        // searched include the part of the current buffer already visited.
+        let mut in_buffer = 0;
         if self.core.begin()? {
-            while self.fill()? && self.core.match_by_line(self.rdr.buffer())? {
+            while self.fill()? {
+                if !self.core.match_by_line(self.rdr.buffer())? {
+                    in_buffer = self.core.pos() as u64;
+                    break;
+                }
             }
         }
         self.core.finish(
-            self.rdr.absolute_byte_offset(),
+            self.rdr.absolute_byte_offset() + in_buffer,
             self.rdr.binary_byte_offset(),
         )
     }
